@@ -5,6 +5,9 @@ import (
 	"math/rand"
 	"strings"
 
+	sdk "github.com/cosmos/cosmos-sdk/types"
+	"github.com/ethereum/go-ethereum/common"
+
 	clienttypes "github.com/teleport-network/teleport/x/xibc/core/client/types"
 )
 
@@ -13,11 +16,15 @@ var specialRunes = []rune{'"', '\\', '/', '<', '>', '&', '\'', '\n', '\r', '\t',
 
 // GenUTF8 returns a valid UTF-8 string drawn from a hostile distribution.
 func GenUTF8(r *rand.Rand, maxLen int) string {
-	switch r.Intn(10) {
+	switch r.Intn(12) {
 	case 0:
 		return ""
 	case 1:
 		return string(specialRunes[r.Intn(len(specialRunes))])
+	case 2, 3:
+		if maxLen >= 42 {
+			return GenStructured(r)
+		}
 	}
 	n := r.Intn(maxLen + 1)
 	var sb strings.Builder
@@ -38,6 +45,42 @@ func GenUTF8(r *rand.Rand, maxLen int) string {
 		}
 	}
 	return sb.String()
+}
+
+// GenStructured returns a string in one of the shapes that address / number "normalisation" code treats
+// specially: hex addresses in lower, upper, EIP-55 and prefix-less form, bech32 addresses, padded and
+// numeric-looking strings. A loss-free codec must hand every one of them back unchanged.
+func GenStructured(r *rand.Rand) string {
+	var a [20]byte
+	r.Read(a[:])
+	addr := common.BytesToAddress(a[:])
+	switch r.Intn(12) {
+	case 0:
+		return addr.Hex() // EIP-55 mixed case
+	case 1:
+		return strings.ToLower(addr.Hex())
+	case 2:
+		return "0x" + strings.ToUpper(addr.Hex()[2:])
+	case 3:
+		return "0X" + addr.Hex()[2:]
+	case 4:
+		return addr.Hex()[2:]
+	case 5:
+		return strings.ToUpper(addr.Hex()[2:])
+	case 6:
+		return sdk.AccAddress(a[:]).String()
+	case 7:
+		return strings.ToUpper(sdk.AccAddress(a[:]).String())
+	case 8:
+		return " " + addr.Hex() + " "
+	case 9:
+		return []string{"007", "+1", "1e3", "0x0", "0x", "1.0", "-0", "true", "null", "NaN", "00000000000000000000000000000000000000000001"}[r.Intn(11)]
+	case 10:
+		return "\t" + sdk.AccAddress(a[:]).String() + "\n"
+	default:
+		h := addr.Hex()
+		return h[:2+r.Intn(40)] // truncated checksummed address
+	}
 }
 
 // GenBytes returns a byte string (empty, runs of 0x00/0xff, random).
